@@ -15,7 +15,8 @@ LEVEL_TEXT = ('Static decision by interprocedural write-effect analysis over the
               'shipped Problem.Calculate implementations and everything they call, every mutation site targets only '
               'objects allocated inside that call tree or the .value of the supplied holder; the point is never '
               'written; every path stores .value and returns the supplied holder; constructors and generators write '
-              'only objects they allocate themselves; module tables are never written; no nondeterminism source.')
+              'only objects they allocate themselves; module tables are never written; no nondeterminism source; problem '
+              'code restores any process-wide interpreter / numpy state it changes.')
 EXPLANATION = ('Purity is a property of the code shape: a function whose transitive write set is {holder.value} plus '
                'objects allocated during the call, and whose read set is never written by any other evaluation or by '
                'the construction of other instances, returns the same value for the same point whatever the history. '
